@@ -5,7 +5,7 @@
 # there, remove the worktree. Prints the check's last lines and exit status.
 prop=$1; patch=$2; shift 2
 wt=$(mktemp -d /var/tmp/verif_seed_XXXXXX); rmdir $wt
-git -C /repo worktree add --detach $wt HEAD >/dev/null 2>&1 || exit 3
+git -C /repo worktree add --detach $wt ${SEED_BASE:-HEAD} >/dev/null 2>&1 || exit 3
 if ! git -C $wt apply "$patch"; then echo "patch does not apply"; git -C /repo worktree remove --force $wt; exit 3; fi
 VERIF_REPO=$wt /verif/verify $prop --no-cover "$@" > $wt.log 2>&1
 rc=$?
